@@ -7,9 +7,8 @@ package c04
 //
 //	stress <seed> <threads> <iters> <nk> <mode>
 //
-// mode a: LoadOrNew (succeeding and failing constructors), Delete, References
-// mode b: LoadOrNew (succeeding), LoadOrStore, Delete, References, Range
-// (the two modes keep clear of the known findings: LoadOrStore / Range racing a failing constructor).
+// mode a: LoadOrNew (succeeding and failing constructors), LoadOrStore, Delete, References, Range
+// mode b: the same without failing constructors
 //
 // The answer line is the constant `stress-ok` (the interleaving is not reproducible, so there is
 // nothing to compare with the model); everything is in the oracle, whose checks are sound under
@@ -225,12 +224,12 @@ func (s *stress) worker(rng *core.Rand, iters int, mode byte) {
 					held = append(held, h{k, v})
 				}
 			}
-		case r < 90 && mode == 'b':
+		case r < 90:
 			x, _ := s.up.LoadOrStore(k, s.newVal(k))
 			if v := s.acquired(0, k, x, "LoadOrStore"); v != nil {
 				held = append(held, h{k, v})
 			}
-		case r < 95 && mode == 'b':
+		case r < 95:
 			s.up.Range(func(key, value any) bool {
 				if v, ok := value.(*sval); ok && v.destructed.Load() != 0 {
 					s.fail("range-destructed-value", fmt.Sprintf("stress: Range reported value %d of key %d whose destructor has run", v.id, v.key))
@@ -238,8 +237,8 @@ func (s *stress) worker(rng *core.Rand, iters int, mode byte) {
 				return true
 			})
 		default:
-			if n, ok := s.up.References(k); ok && n < 0 {
-				s.fail("references-negative", fmt.Sprintf("stress: References(%d) = %d", k, n))
+			if n, ok := s.up.References(k); ok && n <= 0 {
+				s.fail("references-nonpositive-for-present-key", fmt.Sprintf("stress: References(%d) = (%d, true)", k, n))
 			}
 		}
 	}
